@@ -7,9 +7,15 @@
 (b) The interpreter's activation event log of every such run is validated by TLC against SyltActivation:
     NoInterference (no activation reads a global temporary last written by another activation) is evaluated at
     every event, so a shared temporary is caught even when the clobbered value never reaches a print.
+(c) Three further dimensions (spec/MC_Reent.tla; same procedure as (a) and (b)): SyltOrder's CHAINS (a chain of field /
+    index / method links held across a sibling call that changes the chain at one of its links), SyltCapture (one
+    expression reads x and creates closures over x; later changes by the creator and by a sibling closure must be seen
+    through every closure: capture by reference, per activation / iteration), SyltLibReent (library higher-order
+    functions whose callbacks call the library again, the same function nested included).
 """
 import importlib.util
 import os
+from concurrent.futures import ThreadPoolExecutor
 import vlib
 
 PID = "C10"
@@ -23,6 +29,31 @@ def load_c01():
     m = importlib.util.module_from_spec(spec)
     spec.loader.exec_module(m)
     return m
+
+
+# quick tier: the keys of each family whose index sum is divisible by the stride (a diagonal through the product: every
+# value of every axis still occurs, with varying partners); thorough: everything
+STRIDES = {"quick": {"STRIDE_CHAIN": 6, "STRIDE_CAP": 4, "STRIDE_LIB": 2},
+           "thorough": {"STRIDE_CHAIN": 1, "STRIDE_CAP": 1, "STRIDE_LIB": 1}}
+FAMILY_FLOOR = {"quick": {"chain": 400, "capture": 300, "libreent": 300},
+                "thorough": {"chain": 3000, "capture": 1500, "libreent": 800}}
+
+
+def reent_tlc(wd, tier):
+    env = dict(STRIDES[tier], MODE="all")
+    return vlib.tlc("MC_Reent", wd=wd, env=env, timeout=2400, xmx="6g", workers=4, coverage=False)
+
+
+def axis_values(cases, fam):
+    """the values every axis of a family takes among the given cases (ids are o = fam-a-b, i = c-d-e)"""
+    seen = {}
+    for c in cases:
+        if c["id"]["h"] != fam:
+            continue
+        parts = c["id"]["o"].split("-")[1:] + c["id"]["i"].split("-")
+        for k, v in enumerate(parts):
+            seen.setdefault(k, set()).add(v)
+    return seen
 
 
 def run(ctx):
@@ -45,8 +76,29 @@ def run(ctx):
         import json
         cases = [json.load(open(ctx.replay))["replay"]]
     else:
-        r = vlib.tlc("MC_Sem", wd=wd, env={"MODE": "pairs"}, timeout=2400, xmx="16g", workers=10, coverage=False)
+        pool = ThreadPoolExecutor(max_workers=1)
+        reent_future = pool.submit(reent_tlc, wd, tier)       # the three small universes run beside the big one
+        r = vlib.tlc("MC_Sem", wd=wd, env={"MODE": "pairs"}, timeout=2400, xmx="16g", workers=8, coverage=False)
+        rx = reent_future.result()
+        pool.shutdown()
         vlib.require_tlc_ok(r, "SyltSem over the pairwise-nesting universe")
+        vlib.require_tlc_ok(rx, "SyltSem over the chain / capture / library re-entrancy universes")
+        reent = c01.collect(rx)
+        fam_n = {}
+        for c in reent:
+            fam_n[c["id"]["h"]] = fam_n.get(c["id"]["h"], 0) + 1
+            if c["status"] != "done":
+                vlib.tool_error("a program of the chain / capture / library universes does not run to its end in the "
+                                "specification: %s %s" % (c["id"], c["status"]))
+        thin = [f for f, n in FAMILY_FLOOR[tier].items() if fam_n.get(f, 0) < n]
+        # every value of every axis must occur (the stride must not cut an axis value away)
+        want_axes = {"chain": (13, 2, 9, 11, 2), "capture": (6, 4, 4, 10, 2), "libreent": (11, 2, 11, 9, 2)}
+        for fam, sizes in want_axes.items():
+            got = axis_values(reent, fam)
+            if tuple(len(got.get(k, ())) for k in range(len(sizes))) != sizes:
+                thin.append("%s axes %s" % (fam, [len(got.get(k, ())) for k in range(len(sizes))]))
+        if thin:
+            vlib.tool_error("vacuity: chain / capture / library universes too small: %s (%s)" % (thin, fam_n))
         allcases = c01.collect(r)
         # SyltOrder's universes are always taken whole: effects interleaved with held operands (order) and values that
         # differ per activation, live across a re-entrant call (recdep)
@@ -57,8 +109,12 @@ def run(ctx):
         if tier == "quick":
             cases = cases[::3]
             whole = [c for k, c in enumerate(whole) if c["id"]["h"] in ("order", "orderstmt", "recdepbig") or c["id"]["pos"] == 0 or k % 2 == 0]
-        cases = whole + cases
-        ev.set(states=r.distinct, transitions=r.generated, universe_total=len(allcases))
+        cases = whole + reent + cases
+        ev.set(states=r.distinct + rx.distinct, transitions=r.generated + rx.generated, universe_total=len(allcases) + len(reent),
+               reent={"programs": len(reent), "by_family": fam_n, "strides": STRIDES[tier], "tlc_states": rx.distinct,
+                      "tlc_wall_s": round(rx.wall_s, 1),
+                      "distinct_expected_traces": len({vlib.sha(c["out"]) for c in reent}),
+                      "samples": [{"id": c["id"], "expected_prints": len(c["out"])} for c in reent[:1] + reent[len(reent) // 2:len(reent) // 2 + 1] + reent[-1:]]})
         if len(cases) < 1000:
             vlib.tool_error("vacuity: only %d recursion/closure-dense programs" % len(cases))
 
@@ -82,19 +138,36 @@ def run(ctx):
                          {"id": case["id"], "tops": case["tops"], "out": case["out"], "status": case["status"],
                           "source": res.get("source")})
     # (b) event logs through TLC
-    slim = [{"i": e["i"], "ev": e["ev"]} for e in events]
+    # a run of Closure events of one activation with nothing in between is one Closure step of SyltActivation (the action
+    # changes no variable): such runs - above all the ~110 function definitions of the library's main chunk - are handed to
+    # TLC as one record each
+    def merge_closures(evs):
+        out = []
+        for x in evs:
+            if x["e"] == "clo" and out and out[-1]["e"] == "clo" and out[-1]["a"] == x["a"]:
+                continue
+            out.append(x)
+        return out
+    slim = [{"i": e["i"], "ev": merge_closures(e["ev"])} for e in events]
     tf = os.path.join(wd, "trace.ndjson")
     vlib.write_ndjson(tf, slim)
-    # validated in slices: the whole thorough log does not fit TLC's heap at once
+    # validated in slices: the whole thorough log does not fit TLC's heap at once (one after the other: side by side they
+    # only compete for memory)
     CH = 1200
     rej, t = {}, None
     tdistinct = tgenerated = 0
     tcov = {}
-    for off in range(0, len(slim), CH):
-        stf = os.path.join(wd, "trace-%d.ndjson" % off)
+
+    def validate_slice(off):
+        swd = os.path.join(wd, "slice-%d" % off)
+        os.makedirs(swd, exist_ok=True)
+        stf = os.path.join(swd, "trace.ndjson")
         vlib.write_ndjson(stf, slim[off:off + CH])
-        t = vlib.tlc("Trace_Activation", cfg="Trace_Activation.cfg", wd=wd, env={"TRACE": stf}, tags=("REJECT",),
-                     timeout=7200, xmx="12g", out_file=os.path.join(wd, "tlc-trace-%d.out" % off))
+        return off, vlib.tlc("Trace_Activation", cfg="Trace_Activation.cfg", wd=swd, env={"TRACE": stf}, tags=("REJECT",),
+                             timeout=7200, xmx="12g", out_file=os.path.join(wd, "tlc-trace-%d.out" % off))
+
+    slices = [validate_slice(off) for off in range(0, len(slim), CH)]
+    for off, t in slices:
         vlib.require_tlc_ok(t, "Trace_Activation")
         for (_, p) in t.records:
             p["rec"] += off
@@ -135,17 +208,39 @@ def run(ctx):
     if nrej != {1}:
         vlib.tool_error("negative control: expected exactly the clobbered log to be rejected, got %s" % sorted(nrej))
 
+    # negative control of binding (a) on the new dimensions: an expected trace with one print dropped / the program run
+    # against the expectation of its neighbour must be reported as a mismatch
+    nneg = 0
+    if not ctx.replay:
+        neg2 = []
+        for fam in ("chain", "capture", "libreent"):
+            fc = [c for c in cases if c["id"]["h"] == fam]
+            for j, c in enumerate(fc[:40]):
+                d = dict(c)
+                d["out"] = c["out"][:-1] if j % 2 == 0 else c["out"][:-1] + [dict(c["out"][-1], v={"k": "int", "v": 424242})]
+                neg2.append(d)
+        ncf, nrf, nef = (os.path.join(wd, n) for n in ("neg-cases.ndjson", "neg-results.ndjson", "neg-events.ndjson"))
+        vlib.write_ndjson(ncf, neg2)
+        vlib.harness("c10", ["replay", ncf, nrf, nef], timeout=3000)
+        nres = vlib.read_ndjson(nrf)
+        nneg = sum(1 for x in nres if x["verdict"] == "mismatch")
+        if nneg != len(neg2) or not neg2:
+            vlib.tool_error("negative control: %d of %d corrupted expectations of the chain / capture / library universes were accepted"
+                            % (len(neg2) - nneg, len(neg2)))
+
     nev = sum(len(e["ev"]) for e in events)
     ev.add("states", t.distinct)
     ev.add("transitions", t.generated)
     ev.set(traces_validated_against_impl=len(events), programs=len(cases), evaluations=len(cases),
            distinct_nontrivial=sum(1 for e in events if e["depth"] >= 2 or e["closures"] >= 1),
-           events_validated=nev, max_call_depth=max(e["depth"] for e in events),
+           events_validated=nev, event_records_after_merging_closure_runs=sum(len(x["ev"]) for x in slim), max_call_depth=max(e["depth"] for e in events),
            programs_with_closures=sum(1 for e in events if e["closures"] > 0),
            trace_actions={k: v[1] for k, v in t.coverage.items() if k.startswith("T")},
-           verdict_counts=counts, negative_controls_rejected=1, known_findings_hit=verdicts.known_hits,
+           verdict_counts=counts, negative_controls_rejected=1 + nneg, known_findings_hit=verdicts.known_hits,
            rule="programs of SyltGen's universe in the harnesses recl/recr/loopclo/method or built from two recursion/closure "
-                "constructs (quick: every third); non-trivial = call depth >= 2 or at least one closure created (measured from the event log)",
+                "constructs (quick: every third); SyltOrder's order / re-entrancy universes; the chain / capture / library re-entrancy products of "
+                "MC_Reent (quick: the keys whose index sum is divisible by the family's stride); non-trivial = call depth >= 2 or at least "
+                "one closure created (measured from the event log)",
            samples=[{"id": cases[e["i"]]["id"], "events": len(e["ev"]), "depth": e["depth"], "closures": e["closures"]} for e in events[:3]])
     ev.assume("minilua's event log (Enter/Exit/GlobalRead/GlobalWrite/Closure) is faithful; only names V<digits> are logged",
               "globals written only by the main chunk are constants and exempt")
